@@ -243,8 +243,11 @@ class FaceMap:
             for k in range(self.dim):
                 v = self.label if k == self.dim - 1 else 0
                 if k < self.sdim:
-                    x = grid[k][idx[k]]
-                    xr = 1.0 - x
+                    # grid coordinates are snapped to the small rational they round (linspace(0,1,4) reversed is not bit-identical to 1 - linspace;
+                    # np.allclose absorbs that, exact solver arithmetic would not)
+                    from fractions import Fraction
+                    x = Fraction(float(grid[k][idx[k]])).limit_denominator(64)
+                    xr = 1 - x
                     y = Sym(z3.If(self.flips[k], sx._toreal(lift(xr)), sx._toreal(lift(x)))) if not isinstance(self.flips[k], bool) else (xr if self.flips[k] else x)
                     v = v + self.scales[k] * y
                 out[idx + (k,)] = v
@@ -334,7 +337,12 @@ half1 = geometry.tensor_product if False else None
 qa = [geometry.quarter_annulus().rotate_2d(k * np.pi / 2) for k in range(4)]
 conn, ifaces = assemble.detect_interfaces([(g.kvs, g) for g in qa])
 if not conn or len(ifaces) != 4: bad.append('ring of four quarter annuli: %d interfaces' % len(ifaces))
-kv = bspline.make_knots(2, 0.0, 1.0, 1)
+# two half annuli form a closed ring: the two patches share TWO faces
+upper = geometry.outer_product(geometry.line_segment(1.0, 2.0), geometry.semicircle()); lower = upper.rotate_2d(np.pi)
+for order in ((upper, lower), (lower, upper)):
+    conn, ifaces = assemble.detect_interfaces([(g.kvs, g) for g in order])
+    found = sorted((p1, tuple(b1), p2, tuple(b2), tuple(bool(x) for x in f)) for (p1, b1, p2, b2, f) in ifaces)
+    if not conn or found != [(0, (1, 0), 1, (1, 1), (False,)), (0, (1, 1), 1, (1, 0), (False,))]: bad.append('two half annuli: detected %s' % found)
 print(json.dumps({'reproduced': bool(bad), 'bad': bad[:6]}))
 """
 
